@@ -86,6 +86,8 @@ def main():
     changed = source_changed(pid)
     if changed and tier == "quick":
         Ctx.boost = 4          # the code this property is anchored in changed since the fingerprints were taken: search deeper
+    if os.environ.get("VERIF_BOOST", "").isdigit():
+        Ctx.boost = max(1, int(os.environ["VERIF_BOOST"]))      # deeper quick-tier sampling on request (used when hunting false alarms)
     ctx = Ctx(pid, tier, seed)
     if a.replay:
         # a replay file names the seed and tier it came from; generation is deterministic in them, so the same case is
@@ -93,6 +95,7 @@ def main():
         rp = json.load(open(a.replay))
         rseed, rtier = int(rp.get("seed", seed)), rp.get("tier", tier)
         want = (rp.get("violation") or {}).get("case")
+        Ctx.boost = int(rp.get("boost", 1))
         rctx = Ctx(pid, rtier, rseed, widen="widened" in rp.get("kind", ""))
         rres = mod.run(rctx)
         same = [v for v in rres.violations if want is not None and v.get("case") == want]
@@ -146,7 +149,7 @@ def main():
     replay_path = None
     if viol:
         replay_path = core.write_replay(pid, seed, {
-            "property": pid, "seed": seed, "tier": tier, "kind": "property-fails-on-impl",
+            "property": pid, "seed": seed, "tier": tier, "boost": Ctx.boost, "kind": "property-fails-on-impl",
             "violation": viol[0], "more": len(viol) - 1, "proof_layer_broken": broken,
             "tie_disagreements": ties[:3], "tables_diff": tdiff})
         print("VIOLATION property=%s replay=%s" % (pid, os.path.relpath(replay_path, core.VERIF)))
@@ -161,12 +164,12 @@ def main():
         if wv:
             viol = wv
             replay_path = core.write_replay(pid, seed, {
-                "property": pid, "seed": seed, "tier": tier, "kind": "property-fails-on-impl (found by the widened search)",
+                "property": pid, "seed": seed, "tier": tier, "boost": Ctx.boost, "kind": "property-fails-on-impl (found by the widened search)",
                 "violation": wv[0], "proof_layer_broken": broken, "tie_disagreements": ties[:3], "tables_diff": tdiff})
             print("VIOLATION property=%s replay=%s" % (pid, os.path.relpath(replay_path, core.VERIF)))
         else:
             replay_path = core.write_replay(pid, seed, {
-                "property": pid, "seed": seed, "tier": tier, "kind": "no-longer-shown",
+                "property": pid, "seed": seed, "tier": tier, "boost": Ctx.boost, "kind": "no-longer-shown",
                 "no_longer_checks": broken + ["correspondence stream %s" % t["stream"] for t in ties[:5]],
                 "tie_disagreements": ties[:5], "tables_diff": tdiff,
                 "searched": {"evaluations": res.evaluations}})
